@@ -732,7 +732,7 @@ def parse_version(version_declarations: T.List[T.Dict], context: ParseContext):
             if obj["snowfakery_version"] != base_version
         ]
         if mismatched_versions:
-            with context.change_current_parent_object(version_declarations[1]):
+            with context.change_current_parent_object(mismatched_versions[0]):
                 raise exc.DataGenSyntaxError(
                     "Cannot have multiple conflicting versions in the same recipe: ",
                     **context.line_num(),
